@@ -10,6 +10,7 @@ package main
 
 import (
 	"fmt"
+	"regexp"
 	"sort"
 	"strings"
 
@@ -207,6 +208,15 @@ func compareCascade(d *dom, inItems, outItems []fitem, vars []string, r *Rng, st
 	return "", nil
 }
 
+var boxLonghandRe = regexp.MustCompile(`^(margin-(top|right|bottom|left)|padding-(top|right|bottom|left)|top|right|bottom|left|border-(top|bottom)-(left|right)-radius)$`)
+
+func nestingLowered(o glueOpts) bool {
+	if ok, set := o.supported["nesting"]; set && !ok {
+		return true
+	}
+	return len(o.engines) > 0
+}
+
 func trueKeys(m map[string]bool) []string {
 	var out []string
 	for k, v := range m {
@@ -252,6 +262,37 @@ func glueTransformCase(r *Rng, st *Stats, src string, d *dom, o glueOpts, scenar
 					case "top", "right", "bottom", "left":
 						scenario = "inset-lowering-skips-unsplittable-value"
 					}
+				}
+			}
+			if scenario == "" && o.minifySyntax && boxLonghandRe.MatchString(fmt.Sprint(detail["property"])) {
+				hasUnsafeUnit := false
+				for _, v := range vars {
+					if strings.HasPrefix(v, "unit:") {
+						hasUnsafeUnit = true
+					}
+				}
+				if hasUnsafeUnit {
+					scenario = "box-shorthand-placed-before-kept-declaration"
+				}
+			}
+			if scenario == "" && nestingLowered(o) && strings.Contains(out, ":is(") {
+				// known limitation: the parent selector list is wrapped in the forgiving
+				// :is(), so a parent selector this browser cannot parse no longer
+				// invalidates the (lowered) nested rule
+				missingSel := false
+				und := map[string]bool{}
+				if u, ok := detail["understood"].([]string); ok {
+					for _, k := range u {
+						und[k] = true
+					}
+				}
+				for _, v := range vars {
+					if strings.HasPrefix(v, "sel:") && !und[v] {
+						missingSel = true
+					}
+				}
+				if missingSel {
+					scenario = "nesting-lowering-wraps-parent-in-forgiving-is"
 				}
 			}
 			if scenario != "" {
@@ -419,6 +460,8 @@ func glueCorpus(r *Rng, st *Stats) {
 	mk("a", 0, "c1")
 	mk("b", 0)
 	mk("b", 1, "c2")
+	mk("a", 3)
+	mk("span", 0)
 	count := map[int]int{}
 	for i := range d.nodes {
 		d.nodes[i].index = count[d.nodes[i].parent]
@@ -428,6 +471,7 @@ func glueCorpus(r *Rng, st *Stats) {
 		d.nodes[i].nsib = count[d.nodes[i].parent]
 	}
 	min := glueOpts{minifySyntax: true, loader: api.LoaderCSS, desc: "loader=css minify-syntax=true"}
+	noNest := glueOpts{loader: api.LoaderCSS, supported: map[string]bool{"nesting": false}, desc: "loader=css unsupported=[nesting]"}
 	noInset := glueOpts{minifySyntax: true, loader: api.LoaderCSS, supported: map[string]bool{"inset-property": false}, desc: "loader=css minify-syntax=true unsupported=[inset-property]"}
 	cases := []struct {
 		css      string
@@ -438,6 +482,15 @@ func glueCorpus(r *Rng, st *Stats) {
 		{"@media screen { a{color:red} @media screen { b{color:blue} /* c */ } b{color:red} }", min, "media-unwrap-stale-prev-merge"},
 		{"a{width:1.5e10px;order:1.0e10;height:1.50e2px;z-index:10.0e0}", min, "mangle-number-strips-exponent-zeros"},
 		{"b{inset:1px 2px 3px 4px} b.c2{inset:var(--v) 0 0 0}", noInset, "inset-lowering-skips-unsplittable-value"},
+		{"*, a:-moz-foo { color: red !important; > b { color: blue } }", noNest, "nesting-lowering-wraps-parent-in-forgiving-is"},
+		{"div > a { :is(&, span) { color: red } } div > b { color: blue; :not(&) { order: 1 } }", noNest, ""},
+		{"a ~ b { :is(&, span) { color: red } } a + b { :not(&) { order: 2 } }", noNest, ""},
+		// directed probes (must pass): importance is part of a declaration's identity; layers keep first-declaration order
+		{"a{color:red!important;color:red} a.c1{color:blue}", min, ""},
+		{"a{color:red!important} a.c1{color:blue} a{color:red}", min, ""},
+		{"@layer la{b{color:red}} @layer lb{b{color:blue}} @layer la{b{color:red}}", min, ""},
+		{"a{color:red} a::-moz-x{color:red} .c1{color:blue} a{order:1}", min, ""},
+		{"a{margin:1px;margin-top:1vw;margin-top:0} b{border-radius:1px;border-top-left-radius:1vw;border-top-left-radius:0}", min, "box-shorthand-placed-before-kept-declaration"},
 	}
 	for _, c := range cases {
 		glueTransformCase(r, st, c.css, d, c.o, c.scenario)
